@@ -801,10 +801,28 @@ fn certificate_case(t: &mut Tape, rec: &mut Rec) -> CaseResult {
     let kind = *t.pick(&[Kind::Ed25519V4, Kind::Ed25519V6, Kind::P256V4, Kind::EdLegacyV4, Kind::RsaV4, Kind::Ed448V6]);
     let z = zoo::get(kind);
     let secret = t.chance(80);
-    let bytes = if secret { z.secret.to_bytes().unwrap() } else { z.public.to_bytes().unwrap() };
+    // public certificates are also used with a certified image user attribute added through the API
+    let with_attr = !secret && t.chance(110);
+    let base_public: SignedPublicKey = if with_attr {
+        let mut c = z.public.clone();
+        let attr = pgp::packet::UserAttribute::new_image(expand(t.u64(), t.range(1, 60)).into()).map_err(|e| f("C02:attr-error", e.to_string()))?;
+        let signed = attr.sign(ChaCha8Rng::from_seed(t.seed32()), &z.secret.primary_key, &z.public.primary_key, &Password::empty()).map_err(|e| f("C02:sign-error", e.to_string()))?;
+        c.details.user_attributes.push(signed);
+        if c.verify_bindings().is_err() {
+            return fail("C02:positive-control-failed", format!("{kind:?} certificate with an added image attribute does not verify"));
+        }
+        c
+    } else {
+        z.public.clone()
+    };
+    let bytes = if secret { z.secret.to_bytes().unwrap() } else { base_public.to_bytes().unwrap() };
     let raws = wire::split_packets(&bytes).unwrap();
-    // choose a packet and a position inside a signed region
-    let pi = t.below(raws.len());
+    // choose a packet and a position inside a signed region (the attribute packet more often when present)
+    let attr_idx = raws.iter().position(|p| p.tag == 17);
+    let pi = match attr_idx {
+        Some(ai) if t.chance(150) => ai,
+        _ => t.below(raws.len()),
+    };
     let rp = &raws[pi];
     let body = &rp.body;
     let (range, what): (Range<usize>, String) = match rp.tag {
@@ -814,6 +832,7 @@ fn certificate_case(t: &mut Tape, rec: &mut Rec) -> CaseResult {
             (0..kb.public_body.len(), format!("public fields of key packet (tag {})", rp.tag))
         }
         13 => (0..body.len(), "user id".into()),
+        17 => (0..body.len(), "user attribute".into()),
         2 => {
             let l = layout(body).ok_or_else(|| f("C02:signature-layout", ""))?;
             match t.below(4) {
@@ -844,21 +863,21 @@ fn certificate_case(t: &mut Tape, rec: &mut Rec) -> CaseResult {
     fn sig_count(d: &pgp::composed::SignedKeyDetails) -> usize {
         d.direct_signatures.len() + d.revocation_signatures.len() + d.users.iter().map(|u| u.signatures.len()).sum::<usize>() + d.user_attributes.iter().map(|u| u.signatures.len()).sum::<usize>()
     }
-    let nsigs0 = sig_count(&z.public.details) + z.public.public_subkeys.iter().map(|s| s.signatures.len()).sum::<usize>();
-    let (nsub, nuser) = (z.public.public_subkeys.len() + nsigs0, z.public.details.users.len());
+    let nsigs0 = sig_count(&base_public.details) + base_public.public_subkeys.iter().map(|s| s.signatures.len()).sum::<usize>();
+    let (nsub, nuser) = (base_public.public_subkeys.len() + nsigs0, base_public.details.users.len() + base_public.details.user_attributes.len());
     let mut same_value = false;
     let judged: Result<(bool, usize, usize), String> = if secret {
         SignedSecretKey::from_bytes(&out[..])
             .map(|k| {
                 same_value = k == z.secret;
-                (k.verify_bindings().is_ok(), k.secret_subkeys.len() + k.public_subkeys.len() + sig_count(&k.details) + k.secret_subkeys.iter().map(|s| s.signatures.len()).sum::<usize>() + k.public_subkeys.iter().map(|s| s.signatures.len()).sum::<usize>(), k.details.users.len())
+                (k.verify_bindings().is_ok(), k.secret_subkeys.len() + k.public_subkeys.len() + sig_count(&k.details) + k.secret_subkeys.iter().map(|s| s.signatures.len()).sum::<usize>() + k.public_subkeys.iter().map(|s| s.signatures.len()).sum::<usize>(), k.details.users.len() + k.details.user_attributes.len())
             })
             .map_err(|e| e.to_string())
     } else {
         SignedPublicKey::from_bytes(&out[..])
             .map(|k| {
-                same_value = k == z.public;
-                (k.verify_bindings().is_ok(), k.public_subkeys.len() + sig_count(&k.details) + k.public_subkeys.iter().map(|s| s.signatures.len()).sum::<usize>(), k.details.users.len())
+                same_value = k == base_public;
+                (k.verify_bindings().is_ok(), k.public_subkeys.len() + sig_count(&k.details) + k.public_subkeys.iter().map(|s| s.signatures.len()).sum::<usize>(), k.details.users.len() + k.details.user_attributes.len())
             })
             .map_err(|e| e.to_string())
     };
@@ -887,7 +906,7 @@ fn certificate_case(t: &mut Tape, rec: &mut Rec) -> CaseResult {
 }
 
 pub fn run(ctx: &Ctx) {
-    ctx.set_rule("artifacts made with rPGP's signing APIs over zoo keys (detached binary/text, builder one-pass, SignatureConfig; cleartext; certifications 0x10/0x13/0x30, subkey and primary-key bindings, direct-key, key revocation; whole zoo certificates public and secret); one perturbation per case: (a) content - bit flip, truncation, extension, swap, insertion; different user id / subkey / signee key; (b) signature packet at field level - type, public-key algorithm, hash algorithm, any bit of the hashed area, hashed-area length, salt, any bit of the signature value; (c) verifying key - decoy key of the same algorithm, same material with another creation time, same material as a key of the other version; oracle: positive control on the unperturbed artifact, then every applicable entry point (Signature::verify via PublicKey and SignedPublicKey, DetachedSignature::verify, Message::verify / verify_nested_explicit on a prefixed message, cleartext verify / verify_many, verify_third_party_certification, verify_subkey_binding, verify_primary_key_binding, verify_key_third_party, Signed{Public,Secret}Key::verify_bindings) must return Err unless the parser rejected the artifact or it is semantically identical (re-encoding / same canonical text / dropped component); non-trivial = semantic change with passing control; distinct = (artifact kind, key, field, position)");
+    ctx.set_rule("artifacts made with rPGP's signing APIs over zoo keys (detached binary/text, builder one-pass, SignatureConfig; cleartext; certifications 0x10/0x13/0x30, subkey and primary-key bindings, direct-key, key revocation; whole zoo certificates public and secret, also with a certified image user attribute added through the API); one perturbation per case: (a) content - bit flip, truncation, extension, swap, insertion; different user id / subkey / signee key; (b) signature packet at field level - type, public-key algorithm, hash algorithm, any bit of the hashed area, hashed-area length, salt, any bit of the signature value; (c) verifying key - decoy key of the same algorithm, same material with another creation time, same material as a key of the other version; oracle: positive control on the unperturbed artifact, then every applicable entry point (Signature::verify via PublicKey and SignedPublicKey, DetachedSignature::verify, Message::verify / verify_nested_explicit on a prefixed message, cleartext verify / verify_many, verify_third_party_certification, verify_subkey_binding, verify_primary_key_binding, verify_key_third_party, Signed{Public,Secret}Key::verify_bindings) must return Err unless the parser rejected the artifact or it is semantically identical (re-encoding / same canonical text / dropped component); non-trivial = semantic change with passing control; distinct = (artifact kind, key, field, position)");
     ctx.assume("unhashed area, left-16 octets and ECDSA/DSA (r, n-s) malleability are outside the property and not perturbed");
     zoo::warm(zoo::ALL);
     let n = ctx.tier.pick(12_000u64, 1_000_000);
